@@ -24,15 +24,14 @@ def sc(v):
 
 
 # ------------------------------------------------------------------ B: non-interference between chains
-def noninterference(chk):
+def noninterference(chk, C=2, CH=2, kind="rw"):
     import liesel.goose as gs
     from liesel.goose.engine import Engine
     from liesel.goose.epoch import EpochConfig, EpochType
     from liesel.goose.kernel_sequence import KernelSequence
     from liesel.goose.pytree import stack_leaves
-    C, CH = 2, 2
     model = gs.DictInterface(lambda s: -0.5 * jnp.sum((s["x"] - s["m"]) ** 2))
-    k = gs.RWKernel(["x"])
+    k = gs.RWKernel(["x"]) if kind == "rw" else gs.IWLSKernel(["x"])
     k.set_model(model)
     k.identifier = "k0"
     cfgs = [EpochConfig(EpochType.INITIAL_VALUES, 1, 1, None), EpochConfig(EpochType.FAST_ADAPTATION, CH, 1, None)]
@@ -67,8 +66,8 @@ def noninterference(chk):
                 vals.append(a)
             else:
                 v = np.empty(a.shape, dtype=object)
-                for c in range(C):          # chain 0: shared symbols; chain 1: different symbols per evaluation
-                    v[c] = z3.Real("ni" + "".join(ch for ch in p if ch.isalnum()) + f"_c{c}" + ("" if c == 0 else tag))
+                for c in range(C):          # chain 0: shared symbols; other chains: different symbols per evaluation
+                    v[c] = z3.Real(f"ni{C}{CH}{kind}" + "".join(ch for ch in p if ch.isalnum()) + f"_c{c}" + ("" if c == 0 else tag))
                 vals.append(v)
         outs = I.eval_closed(jp, *vals)
         return I, outs
@@ -81,13 +80,13 @@ def noninterference(chk):
             for x_, y_ in zip(cells(a[0]), cells(b[0])):
                 if z3.is_expr(x_) and z3.is_expr(y_):
                     diffs.append(x_ != y_)
-    chk.functions += ["liesel.goose.engine.Engine._sample_many (jit + vmap over 2 chains, chunk of 2 adaptive RW transitions)"]
+    chk.functions += [f"liesel.goose.engine.Engine._sample_many (jit + vmap over {C} chains, chunk of {CH} adaptive {kind.upper()} transitions)"]
     from .. import smt
     hy = list(I1.side) + list(I2.side)
     verdict, model_, secs, info = smt.check_sat(hy + [z3.Or(*diffs)], 120, "auto", ("pos", "inv", "unit"))
 
     class _Ob:
-        name = f"chain 0's outputs of a jitted chunk ({len(diffs)} cells: states, kernel states, infos, stored positions) do not depend on chain 1's inputs"
+        name = f"[{C} chains, chunk {CH}, {kind.upper()}] chain 0's outputs of a jitted chunk ({len(diffs)} cells: states, kernel states, infos, stored positions) do not depend on the other chains' inputs"
         signature = "non-interference"
     if verdict == "unsat":
         r = Result(_Ob, "unsat", secs, info)
@@ -259,6 +258,9 @@ def main():
     run_conditions(chk, conds)
     # B
     chk.guarded("non-interference", "tracing the jitted two-chain chunk", noninterference, chk)
+    chk.guarded("non-interference-iwls", "tracing the jitted two-chain IWLS chunk", noninterference, chk, 2, 2, "iwls")
+    if chk.tier == "thorough":
+        chk.guarded("non-interference-3x3", "tracing the jitted three-chain chunk", noninterference, chk, 3, 3, "rw")
     obs = []
     for multi in (False, True):
         res = chk.guarded(f"builder:{multi}", f"EngineBuilder.set_initial_values(multiple_chains={multi}) / build()", builder_obligations, chk, multi)
